@@ -11,6 +11,12 @@ CHECKS = {
         'Counterexamples are replayed on the g++/libstdc++ build under ASan before being reported.',
    note=TB + 'real libstdc++ <iterator>/<algorithm>; CBMC built-in malloc/realloc/memcpy; capacities above the bound, resize(0) and allocation failure are outside the claim.',
    technique='SAT-based bounded model checking (CBMC) of clang-lowered RingBuffer code; 1-step induction over a symbolic pre-state', design='4/C04'),
+ 'C09': dict(
+   text='Same inductive-step encoding of the real RingBuffer.h instantiated with a lifetime-tracking class type (identity travels with the bytes, registry of live / moved-from / destroyed ids, raw storage is nondeterministic): '
+        'after every operation from an arbitrary valid state and after destruction, exactly the logically removed elements are destroyed, once; no destructor/assignment touches raw storage; no element and no heap block is leaked; '
+        'all CBMC pointer/bounds checks hold. Capacities 1..3 (quick) / 1..5 (thorough). Counterexamples replayed under ASan/LSan on the g++ build.',
+   note=TB + 'moved-from shells left by pop are tolerated; allocation failure out of scope; capacities above the bound outside the claim.',
+   technique='SAT-based bounded model checking (CBMC) of clang-lowered RingBuffer<Tracked>; 1-step induction + destruction, ghost lifetime registry', design='4/C09'),
 }
 REASON_WIP = 'check not built yet (work in progress, see DESIGN.md section 7)'
 m = {"version": 1, "setup_cmd": "./vf setup",
